@@ -459,7 +459,112 @@ func c18W5(c *ev.Ctx) {
 	c.Case(fmt.Sprintf("W5|%s|leave%v|ops%d", tag, leaveRunning, len(s.Ops)/20), true)
 }
 
+// ---- W6: Start/Stop of a SmartRebalancer around its first decision
+
+// slowTree is a tree adapter whose size query takes a while (a stat call on a busy file
+// system) and which knows whether background rebalancing is switched on.
+type slowTree struct {
+	realTree
+	delay   time.Duration
+	slow    atomic.Bool
+	bgOn    atomic.Bool
+	enables atomic.Int64
+}
+
+func (t *slowTree) GetFileSize() uint64 {
+	if t.delay > 0 && t.slow.Load() {
+		time.Sleep(t.delay)
+	}
+	return 600 << 20
+}
+func (t *slowTree) EnableIncrementalRebalancing(cfg structures.IncrementalRebalancingConfig) error {
+	err := t.realTree.EnableIncrementalRebalancing(cfg)
+	if err == nil {
+		t.bgOn.Store(true)
+		t.enables.Add(1)
+	}
+	return err
+}
+func (t *slowTree) DisableRebalancing() error {
+	err := t.realTree.DisableRebalancing()
+	t.bgOn.Store(false)
+	return err
+}
+func (t *slowTree) StopBackgroundRebalancing() error {
+	err := t.realTree.StopBackgroundRebalancing()
+	t.bgOn.Store(false)
+	return err
+}
+
+// c18W6: many short lives of a SmartRebalancer whose workload makes the very first
+// re-evaluation switch background (incremental) rebalancing on; Stop arrives before, during or
+// after that re-evaluation. When Stop has returned, background rebalancing must be off (the
+// adapter's own flag: no timing involved) and, at the end, no library goroutine may be left.
+func c18W6(c *ev.Ctx) {
+	r := c.R
+	cycles := c.Pick(150, 600)
+	interval := []time.Duration{50 * time.Microsecond, 100 * time.Microsecond, 300 * time.Microsecond}[r.Intn(3)]
+	delay := []time.Duration{0, 100 * time.Microsecond, 400 * time.Microsecond, time.Millisecond}[r.Intn(4)]
+	transitions, leaks := 0, 0
+	for i := 0; i < cycles; i++ {
+		tree := &slowTree{realTree: realTree{bt: structures.NewWritableBTreeV2(4096)}, delay: delay}
+		sr := rebalancing.NewSmartRebalancer(tree, rebalancing.WithReevalInterval(interval))
+		// a mixed workload on a large file: the first decision is "incremental"
+		for k := 0; k < 100; k++ {
+			op := rebalancing.OpRead
+			switch {
+			case k%10 == 0:
+				op = rebalancing.OpDelete
+			case k%2 == 0:
+				op = rebalancing.OpWrite
+			}
+			_ = sr.RecordOperation(op)
+		}
+		tree.slow.Store(true)
+		if err := sr.Start(context.Background()); err != nil {
+			c.Violation("smart-start-refused", err.Error())
+			return
+		}
+		// somewhere between "before the first tick" and "well after it"
+		wait := time.Duration(r.Intn(int(2*interval+2*delay)/1000+1)) * time.Microsecond
+		if wait > 0 {
+			time.Sleep(wait)
+		}
+		stopped := make(chan error, 1)
+		go func() { stopped <- sr.Stop() }()
+		select {
+		case <-stopped:
+		case <-time.After(20 * time.Second):
+			c.Violation("stop-does-not-return:SmartRebalancer.Stop", map[string]any{"goroutines": libraryGoroutines()})
+			return
+		}
+		if tree.enables.Load() > 0 {
+			transitions++
+		}
+		if tree.bgOn.Load() {
+			leaks++
+			if leaks == 1 {
+				c.Violation("background-rebalancing-on-after-Stop:SmartRebalancer", map[string]any{"cycle": i, "reeval_interval": interval.String(), "size_query_takes": delay.String(), "stop_after": wait.String(), "incremental_enabled_times": tree.enables.Load()})
+			}
+		}
+		_ = tree.DisableRebalancing()
+	}
+	if left := awaitNoLibraryGoroutines(""); len(left) > 0 {
+		c.Violation("goroutine-outlives-stop:"+goroutineLoop(left[0]), map[string]any{"left": left})
+	}
+	c.Count("W6:start_stop_cycles", int64(cycles))
+	c.Count("W6:cycles_in_which_background_rebalancing_was_switched_on", int64(transitions))
+	if transitions == 0 {
+		c.Inconclusive("W6: no cycle reached the transition to incremental rebalancing")
+	}
+	c.Case(fmt.Sprintf("W6|interval%v|sizequery%v", interval, delay), transitions > 0)
+}
+
 func c18Run(c *ev.Ctx) {
+	if c.Index%6 == 5 {
+		c18W6(c)
+		return
+	}
 	switch c.Index % 5 {
 	case 0:
 		c18W1(c)
@@ -478,7 +583,7 @@ var C18 = &ev.Property{
 	ID:    "C18",
 	Level: "exploration",
 	Race:  true,
-	Rule: "all workloads run in a binary built with the race detector; every detector report is a violation keyed by the first library frames of its two stacks. W1: 2-32 goroutines, each writing its own file from its own history and reading it back (shared state reached: buffer pool, datatype registry), compared with the sequential run; W2: 2-16 readers with their own Open handle on one file (corpus or library-written), six complete dumps each, compared with the sequential dump; W3: one WritableBTreeV2 with lazy + incremental rebalancing (ticker 1 us - 1 ms, budgets 1 us - 10 ms, with and without progress callback), ONE foreground goroutine doing 2000 (thorough 6000) inserts, lazy deletes across the batch threshold, statistics and progress queries, stop and re-enable; every stop must return, afterwards no library goroutine may be left (bounded wait 4 s); W4: SmartRebalancer (re-evaluation every 100 us; in half of the cases with a detector whose sliding window is 2 or 10 ms, with idle phases that let events expire followed by reader-only calls) over a real B-tree, 2-8 goroutines calling RecordOperation/Evaluate/GetStats/GetMetrics plus MetricsCollector.RecordOperation/Snapshot whose history is checked for linearizability against a counter model (porcupine), Stop, restart, cancel through the context, goroutine census; W5: FileWriter created with each rebalancing configuration, an attribute history with runtime toggles, background mode left running or not, Close, goroutine census. " +
+	Rule: "all workloads run in a binary built with the race detector; every detector report is a violation keyed by the first library frames of its two stacks. W1: 2-32 goroutines, each writing its own file from its own history and reading it back (shared state reached: buffer pool, datatype registry), compared with the sequential run; W2: 2-16 readers with their own Open handle on one file (corpus or library-written), six complete dumps each, compared with the sequential dump; W3: one WritableBTreeV2 with lazy + incremental rebalancing (ticker 1 us - 1 ms, budgets 1 us - 10 ms, with and without progress callback), ONE foreground goroutine doing 2000 (thorough 6000) inserts, lazy deletes across the batch threshold, statistics and progress queries, stop and re-enable; every stop must return, afterwards no library goroutine may be left (bounded wait 4 s); W4: SmartRebalancer (re-evaluation every 100 us; in half of the cases with a detector whose sliding window is 2 or 10 ms, with idle phases that let events expire followed by reader-only calls) over a real B-tree, 2-8 goroutines calling RecordOperation/Evaluate/GetStats/GetMetrics plus MetricsCollector.RecordOperation/Snapshot whose history is checked for linearizability against a counter model (porcupine), Stop, restart, cancel through the context, goroutine census; W5: FileWriter created with each rebalancing configuration, an attribute history with runtime toggles, background mode left running or not, Close, goroutine census; W6 (every sixth case): 150 (thorough 600) short lives of a SmartRebalancer whose first re-evaluation switches background rebalancing on, over a tree adapter whose size query takes 0-1 ms, Stop called before, during or after that re-evaluation: when Stop has returned the adapter must have been told to stop background rebalancing. " +
 		"non-trivial: every case; distinct = (workload, parameters).",
 	Assumptions: []string{"the race detector generalises over orderings of the accesses it observed (happens-before), not over paths that were not executed"},
 	Cases: func(tier string) int {
